@@ -1,0 +1,42 @@
+//go:build verif
+
+package postgres
+
+import (
+	"database/sql"
+
+	"github.com/resonatehq/resonate/internal/aio"
+	"github.com/resonatehq/resonate/internal/kernel/bus"
+	"github.com/resonatehq/resonate/internal/kernel/t_aio"
+	"github.com/resonatehq/resonate/internal/metrics"
+)
+
+// NewVerif builds a PostgresStore (one worker) over an already opened
+// database handle. It exists only for the external verification harness
+// (build tag "verif"), which runs this backend's code on an injected
+// driver.
+func NewVerif(a aio.AIO, metrics *metrics.Metrics, config *Config, db *sql.DB) *PostgresStore {
+	sq := make(chan *bus.SQE[t_aio.Submission, t_aio.Completion], config.Size)
+
+	worker := &PostgresStoreWorker{
+		config:  config,
+		i:       0,
+		db:      db,
+		sq:      sq,
+		flush:   make(chan int64, 1),
+		aio:     a,
+		metrics: metrics,
+	}
+
+	return &PostgresStore{
+		config:  config,
+		sq:      sq,
+		db:      db,
+		workers: []*PostgresStoreWorker{worker},
+	}
+}
+
+// VerifExecute runs Execute on the store's first worker.
+func (s *PostgresStore) VerifExecute(transactions []*t_aio.Transaction) ([][]*t_aio.Result, error) {
+	return s.workers[0].Execute(transactions)
+}
